@@ -9,9 +9,11 @@ CONSTANTS
   MaxLoads = 1
   MaxQ = 2
   MaxResolving = 1
-  IdCases = {"lower", "upper"}
+  IdCases = {"upper"}
   HonestModes = {TRUE}
   AnswerKinds = {"ok", "err", "close"}
+  Restores = {11, 22}
+  DecSpawn = {FALSE}
   NormalisedRemove = TRUE
 CONSTRAINT QBound
 INVARIANT TypeOK
@@ -25,6 +27,7 @@ INVARIANT NotifiedWithNewNumber
 INVARIANT RemovedMeansGone
 INVARIANT NoUpdatesWhileRemoving
 INVARIANT ConnectsToLatest
+INVARIANT CallbackNeverRaises
 PROPERTY ProcessesCurrentRecord
 PROPERTY NoWorkAfterShutdown
 CHECK_DEADLOCK FALSE
